@@ -70,6 +70,12 @@ THEOREMS = [
     "Lena.C10.pdf_selected_multiset",
     "Lena.C10.pdf_selected_independent",
     "Lena.C10.pdf_loop_spec",
+    "Lena.C10.pipe_passes",
+    "Lena.C10.pipeAll_passes",
+    "Lena.C10.insert_invisible_before",
+    "Lena.C10.insert_invisible_after",
+    "Lena.C10.pipeline_interleave",
+    "Lena.C10.liftFS_passes",
 ]
 TRUSTED = [
     "Lean 4.33.0 kernel; axioms limited to propext, Classical.choice, Quot.sound (audited by #print axioms on every run)",
